@@ -204,6 +204,11 @@ func makeSource[T num, A arr[T, A]](k kit[T, A], layout int, shape []int, vals [
 				pdims[d] = loc[d] + shape[d]*step[d] + 1
 			}
 		}
+		for d := range pdims {
+			if pdims[d] == 0 {
+				pdims[d] = 1 // a zero-extent view of non-empty storage
+			}
+		}
 		parent := k.newGo(pdims)
 		pidx := make([]int, rank)
 		for i := 0; i < product(pdims); i++ {
